@@ -1,0 +1,210 @@
+//go:build verif
+
+package connectconformance
+
+// Contracts for result assertion (C03), results.go. Every check function returns the list of
+// discrepancies; the contract of each says exactly when that list is empty, in terms of the
+// expected and the actual result (the leniencies are part of that condition). Comparisons
+// done by library code (unpacking an Any, cmp.Diff) are abstract relations, see
+// /verif/contracts/extern/deps.vc.
+
+//@ elemvalues []*conformancev1.ConformancePayload: v != nil
+//@ elemvalues []*anypb.Any: v != nil
+//@ elemvalues []*conformancev1.Header: v != nil
+//@ elemvalues multiErrors: v != nil
+
+//@ func (multiErrors).Result
+//@   pure
+//@   ensures (result == nil) == (len(e) == 0)
+
+// ---- request info (echoed by the server) ----
+// timeout: expected one => echoed, at most the expected value and at least expected - 500 ms
+// (not below 0); none expected => none echoed
+//@ spec timeoutOK(e *conformancev1.ConformancePayload_RequestInfo, a *conformancev1.ConformancePayload_RequestInfo) bool =
+//@    (e != nil && e.TimeoutMs != nil) ?
+//@       (a != nil && a.TimeoutMs != nil && *a.TimeoutMs <= *e.TimeoutMs && *a.TimeoutMs >= (*e.TimeoutMs - 500 < 0 ? 0 : *e.TimeoutMs - 500)) :
+//@       !(a != nil && a.TimeoutMs != nil)
+//@ spec reqsOf(r *conformancev1.ConformancePayload_RequestInfo) []*anypb.Any = r == nil ? nil : r.Requests
+// the first n echoed requests unpack and equal the expected ones
+//@ spec echoedOK(es []*anypb.Any, as []*anypb.Any, n int) bool =
+//@    n <= 0 || (echoedOK(es, as, n - 1) && anyUnpackOK(as[n-1]) && anyUnpackOK(es[n-1]) && anyContent(es[n-1]) == anyContent(as[n-1]))
+
+// ---- header comparison ----
+// canonical form of a value list: every value is split at commas; a part loses one leading
+// space unless it is the first part of its value and one trailing space unless it is the last
+// part; the parts of all values are concatenated in order.
+//@ spec nParts(v string) int = len(splitView(v, ","))
+//@ spec canonPart(p string, i int, last int) string =
+//@    ((i < last && len((i > 0 && len(p) > 0 && p[0] == 32) ? p[1:] : p) > 0 &&
+//@      ((i > 0 && len(p) > 0 && p[0] == 32) ? p[1:] : p)[len((i > 0 && len(p) > 0 && p[0] == 32) ? p[1:] : p) - 1] == 32) ?
+//@        ((i > 0 && len(p) > 0 && p[0] == 32) ? p[1:] : p)[:len((i > 0 && len(p) > 0 && p[0] == 32) ? p[1:] : p) - 1] :
+//@        ((i > 0 && len(p) > 0 && p[0] == 32) ? p[1:] : p))
+// number of canonical parts of the first n values, and the p-th canonical part
+//@ spec cLen(vals []string, n int) int = n <= 0 ? 0 : cLen(vals, n - 1) + nParts(vals[n-1])
+//@ spec cItem(vals []string, n int, p int) string =
+//@    n <= 0 ? "" : (p >= cLen(vals, n - 1) ?
+//@        canonPart(splitView(vals[n-1], ",")[p - cLen(vals, n - 1)], p - cLen(vals, n - 1), nParts(vals[n-1]) - 1) : cItem(vals, n - 1, p))
+//@ lemma cLenNonNeg(vals []string, n int)
+//@   requires true
+//@   ensures cLen(vals, n) >= 0 && (n >= 0 ==> cLen(vals, n) >= n)
+//@   induct cLenNonNeg(vals, n - 1) when n > 0
+//@   decreases n
+
+//@ func canonicalizeHeaderVals
+//@   modifies nothing
+//@   ensures @fresh slicebase(result) != 0 && (fresh(result) || len(result) == 0)
+//@   ensures @length len(result) == old(cLen(vals, len(vals)))
+//@   ensures @items forall p int :: 0 <= p && p < len(result) ==> result[p] == atpre(cItem(vals, len(vals), p))
+//@   loop 0: invariant slicebase(canon) != 0 && (fresh(canon) || len(canon) == 0) && len(canon) == atpre(cLen(vals, rangeindex + 1))
+//@           invariant forall p int :: 0 <= p && p < len(canon) ==> canon[p] == atpre(cItem(vals, rangeindex + 1, p))
+//@   loop 1: invariant slicebase(canon) != 0 && (fresh(canon) || len(canon) == 0) && len(canon) == atpre(cLen(vals, rangeindex0 + 1)) + i
+//@           invariant 0 <= i && i <= last + 1 && last == len(parts) - 1 && 0 <= rangeindex0 + 1 && rangeindex0 + 1 < len(vals)
+//@           invariant fresh(parts) && allocated(parts) && slicebase(parts) != slicebase(canon) && view(parts) == atpre(splitView(vals[rangeindex0 + 1], ","))
+//@           invariant forall p int :: 0 <= p && p < atpre(cLen(vals, rangeindex0 + 1)) ==> canon[p] == atpre(cItem(vals, rangeindex0 + 1, p))
+//@           invariant forall t int :: 0 <= t && t < i ==> canon[at(atpre(cLen(vals, rangeindex0 + 1)), t)] == canonPart(parts[t], t, last)
+
+// the actual headers are looked up by lower-cased name; of several actual headers with the
+// same name the last one counts (that is what the map built by checkHeaders holds):
+// lastIdx is its index among the first n actual headers, -1 if there is none
+//@ spec lastIdx(act []*conformancev1.Header, n int, k string) int = n <= 0 ? 0 - 1 : (strLower(act[n-1].Name) == k ? n - 1 : lastIdx(act, n - 1, k))
+// two value lists agree up to joining / splitting at commas
+//@ spec canonSame(a []string, b []string) bool = cLen(a, len(a)) == cLen(b, len(b)) &&
+//@    (forall p int :: 0 <= p && p < cLen(a, len(a)) ==> cItem(a, len(a), p) == cItem(b, len(b), p))
+//@ spec hdrOK(exp []*conformancev1.Header, act []*conformancev1.Header, j int) bool =
+//@    lastIdx(act, len(act), strLower(exp[j].Name)) >= 0 && canonSame(exp[j].Value, act[lastIdx(act, len(act), strLower(exp[j].Name))].Value)
+//@ spec hdrsOK(exp []*conformancev1.Header, act []*conformancev1.Header, n int) bool = n <= 0 || (hdrsOK(exp, act, n - 1) && hdrOK(exp, act, n - 1))
+
+//@ func headerValsToString
+//@   trusted
+//@   pure
+
+// checkHeaders: no discrepancy exactly when every expected header is present among the
+// actual ones (any letter case, extra actual headers allowed) with the same canonical values.
+//@ func checkHeaders
+//@   modifies nothing
+//@   ensures @iff (len(result) == 0) == old(hdrsOK(expected, actual, len(expected)))
+//@   assert_at "reflect.DeepEqual(expectedVals, actualVals)": len(expectedVals) == atpre(cLen(expected[rangeindex + 1].Value, len(expected[rangeindex + 1].Value))) &&
+//@        (forall p int :: 0 <= p && p < len(expectedVals) ==> expectedVals[p] == atpre(cItem(expected[rangeindex + 1].Value, len(expected[rangeindex + 1].Value), p)))
+//@   assert_at "reflect.DeepEqual(expectedVals, actualVals)": len(actualVals) == atpre(cLen(actual[lastIdx(actual, len(actual), strLower(expected[rangeindex + 1].Name))].Value, len(actual[lastIdx(actual, len(actual), strLower(expected[rangeindex + 1].Name))].Value))) &&
+//@        (forall p int :: 0 <= p && p < len(actualVals) ==> actualVals[p] == atpre(cItem(actual[lastIdx(actual, len(actual), strLower(expected[rangeindex + 1].Name))].Value, len(actual[lastIdx(actual, len(actual), strLower(expected[rangeindex + 1].Name))].Value), p)))
+//@   assert_at "reflect.DeepEqual(expectedVals, actualVals)": (len(expectedVals) == len(actualVals) && (forall i int :: 0 <= i && i < len(expectedVals) ==> expectedVals[i] == actualVals[i])) ==>
+//@        (atpre(cLen(expected[rangeindex + 1].Value, len(expected[rangeindex + 1].Value))) == atpre(cLen(actual[lastIdx(actual, len(actual), strLower(expected[rangeindex + 1].Name))].Value, len(actual[lastIdx(actual, len(actual), strLower(expected[rangeindex + 1].Name))].Value))) && (forall p int :: 0 <= p && p < atpre(cLen(expected[rangeindex + 1].Value, len(expected[rangeindex + 1].Value))) ==> atpre(cItem(expected[rangeindex + 1].Value, len(expected[rangeindex + 1].Value), p)) == atpre(cItem(actual[lastIdx(actual, len(actual), strLower(expected[rangeindex + 1].Name))].Value, len(actual[lastIdx(actual, len(actual), strLower(expected[rangeindex + 1].Name))].Value), p))))
+//@   assert_at "reflect.DeepEqual(expectedVals, actualVals)": (atpre(cLen(expected[rangeindex + 1].Value, len(expected[rangeindex + 1].Value))) == atpre(cLen(actual[lastIdx(actual, len(actual), strLower(expected[rangeindex + 1].Name))].Value, len(actual[lastIdx(actual, len(actual), strLower(expected[rangeindex + 1].Name))].Value))) && (forall p int :: 0 <= p && p < atpre(cLen(expected[rangeindex + 1].Value, len(expected[rangeindex + 1].Value))) ==> atpre(cItem(expected[rangeindex + 1].Value, len(expected[rangeindex + 1].Value), p)) == atpre(cItem(actual[lastIdx(actual, len(actual), strLower(expected[rangeindex + 1].Name))].Value, len(actual[lastIdx(actual, len(actual), strLower(expected[rangeindex + 1].Name))].Value), p)))) ==>
+//@        (len(expectedVals) == len(actualVals) && (forall i int :: 0 <= i && i < len(expectedVals) ==> expectedVals[i] == actualVals[i]))
+//@   assert_at "reflect.DeepEqual(expectedVals, actualVals)": atpre(canonSame(expected[rangeindex + 1].Value, actual[lastIdx(actual, len(actual), strLower(expected[rangeindex + 1].Name))].Value)) == (atpre(cLen(expected[rangeindex + 1].Value, len(expected[rangeindex + 1].Value))) == atpre(cLen(actual[lastIdx(actual, len(actual), strLower(expected[rangeindex + 1].Name))].Value, len(actual[lastIdx(actual, len(actual), strLower(expected[rangeindex + 1].Name))].Value))) && (forall p int :: 0 <= p && p < atpre(cLen(expected[rangeindex + 1].Value, len(expected[rangeindex + 1].Value))) ==> atpre(cItem(expected[rangeindex + 1].Value, len(expected[rangeindex + 1].Value), p)) == atpre(cItem(actual[lastIdx(actual, len(actual), strLower(expected[rangeindex + 1].Name))].Value, len(actual[lastIdx(actual, len(actual), strLower(expected[rangeindex + 1].Name))].Value), p))))
+//@   loop 0: invariant actualHeaders != nil && fresh(actualHeaders)
+//@           invariant 0 <= rangeindex + 1 && rangeindex + 1 <= len(actual)
+//@           invariant forall k string :: has(actualHeaders, k) == (atpre(lastIdx(actual, rangeindex + 1, k)) >= 0)
+//@           invariant forall k string :: has(actualHeaders, k) ==> actualHeaders[k] == actual[atpre(lastIdx(actual, rangeindex + 1, k))].Value
+//@   loop 1: invariant actualHeaders != nil && fresh(actualHeaders) && (slicebase(errs) == 0 || fresh(errs))
+//@           invariant forall k string :: has(actualHeaders, k) == (atpre(lastIdx(actual, len(actual), k)) >= 0)
+//@           invariant forall k string :: has(actualHeaders, k) ==> actualHeaders[k] == actual[atpre(lastIdx(actual, len(actual), k))].Value
+//@           invariant 0 <= rangeindex + 1 && rangeindex + 1 <= len(expected)
+//@           invariant (len(errs) == 0) == atpre(hdrsOK(expected, actual, rangeindex + 1))
+
+// ---- request info, payloads, errors ----
+// (nil request infos are empty ones, as the generated getters treat them)
+//@ spec riHdrsOK(e *conformancev1.ConformancePayload_RequestInfo, a *conformancev1.ConformancePayload_RequestInfo) bool =
+//@    e == nil || (a == nil ? len(e.RequestHeaders) == 0 : hdrsOK(e.RequestHeaders, a.RequestHeaders, len(e.RequestHeaders)))
+//@ spec qpLen(r *conformancev1.ConformancePayload_RequestInfo) int = (r == nil || r.ConnectGetInfo == nil) ? 0 : len(r.ConnectGetInfo.QueryParams)
+//@ spec qpOK(e *conformancev1.ConformancePayload_RequestInfo, a *conformancev1.ConformancePayload_RequestInfo) bool =
+//@    !(qpLen(e) > 0 && qpLen(a) > 0) || hdrsOK(e.ConnectGetInfo.QueryParams, a.ConnectGetInfo.QueryParams, qpLen(e))
+//@ spec nReqs(r *conformancev1.ConformancePayload_RequestInfo) int = r == nil ? 0 : len(r.Requests)
+//@ spec reqsOK(e *conformancev1.ConformancePayload_RequestInfo, a *conformancev1.ConformancePayload_RequestInfo) bool =
+//@    nReqs(a) == nReqs(e) && (nReqs(a) == 0 || echoedOK(e.Requests, a.Requests, nReqs(a)))
+
+// checkRequestInfo: for the first payload (verifyHeaders) the expected request headers must
+// be present, the timeout must match up to the grace window, and - when both sides list query
+// parameters - the expected ones must be present; always: the same number of echoed requests,
+// each of which unpacks and equals the expected one.
+//@ func checkRequestInfo
+//@   modifies nothing
+//@   ensures @iff (len(result) == 0) == old((!verifyHeaders || (riHdrsOK(expected, actual) && timeoutOK(expected, actual) && qpOK(expected, actual))) && reqsOK(expected, actual))
+//@   loop 0: invariant 0 <= i && reqNum == i && (slicebase(errs) == 0 || fresh(errs)) && i <= atpre(nReqs(actual)) && i <= atpre(nReqs(expected))
+//@           invariant (len(errs) == 0) == atpre((!verifyHeaders || (riHdrsOK(expected, actual) && timeoutOK(expected, actual) && qpOK(expected, actual))) && nReqs(actual) == nReqs(expected) &&
+//@                (i == 0 || echoedOK(expected.Requests, actual.Requests, i)))
+
+//@ spec payOK(e *conformancev1.ConformancePayload, a *conformancev1.ConformancePayload, first bool) bool =
+//@    bytesEq(a.Data, e.Data) && (!first || (riHdrsOK(e.RequestInfo, a.RequestInfo) && timeoutOK(e.RequestInfo, a.RequestInfo) && qpOK(e.RequestInfo, a.RequestInfo))) && reqsOK(e.RequestInfo, a.RequestInfo)
+//@ spec paysOK(es []*conformancev1.ConformancePayload, as []*conformancev1.ConformancePayload, n int) bool =
+//@    n <= 0 || (paysOK(es, as, n - 1) && payOK(es[n-1], as[n-1], n == 1))
+
+// checkPayloads: same number of payloads, each with the expected bytes, in order; the request
+// information of each matches (headers, timeout and query parameters only on the first).
+//@ func checkPayloads
+//@   modifies nothing
+//@   ensures @iff (len(result) == 0) == old(len(actual) == len(expected) && paysOK(expected, actual, len(actual)))
+//@   loop 0: invariant 0 <= i && i <= len(actual) && i <= len(expected) && (slicebase(errs) == 0 || fresh(errs))
+//@           invariant (len(errs) == 0) == atpre(len(actual) == len(expected) && paysOK(expected, actual, i))
+
+// checkError: presence must agree; with both present the code must be the expected one or one
+// of the other allowed codes, the message must be equal if the expectation specifies one, the
+// number of details must be equal, and each detail must match: request-info details through
+// checkRequestInfo, all others by message equality.
+//@ spec detailOK(e *anypb.Any, a *anypb.Any, ei proto.Message, ai proto.Message) bool =
+//@    (anyIsA(a, ai) && anyIsA(e, ei)) ? (anyUnpackOK(a) && anyUnpackOK(e)) : (msgContent(box(e)) == msgContent(box(a)))
+//@ func expectedCodeString
+//@   trusted
+//@   pure
+
+//@ spec errHeadOK(e *conformancev1.Error, a *conformancev1.Error, other []conformancev1.Code) bool =
+//@    (e.Code == a.Code || contains(other, a.Code)) && (e.Message == nil || (a.Message != nil ? *e.Message == *a.Message : *e.Message == "")) && len(e.Details) == len(a.Details)
+
+//@ func checkError
+//@   modifies nothing
+//@   ensures @presence (expected == nil) != (actual == nil) ==> len(result) > 0
+//@   ensures @absent expected == nil && actual == nil ==> len(result) == 0
+//@   ensures @code expected != nil && actual != nil && len(result) == 0 ==> (expected.Code == actual.Code || contains(otherCodes, actual.Code))
+//@   ensures @message expected != nil && actual != nil && len(result) == 0 && expected.Message != nil ==> actual.Message != nil ? *expected.Message == *actual.Message : *expected.Message == ""
+//@   ensures @detailcount expected != nil && actual != nil && len(result) == 0 ==> len(expected.Details) == len(actual.Details)
+//@   ensures @lenient expected != nil && actual != nil && (expected.Code == actual.Code || contains(otherCodes, actual.Code)) &&
+//@        (expected.Message == nil || (actual.Message != nil ? *expected.Message == *actual.Message : *expected.Message == "")) && len(expected.Details) == 0 && len(actual.Details) == 0 ==> len(result) == 0
+//@   ensures @details expected != nil && actual != nil && len(result) == 0 ==> forall k int :: 0 <= k && k < len(expected.Details) ==>
+//@        ((anyIsReqInfo(actual.Details[k]) && anyIsReqInfo(expected.Details[k])) ? (anyUnpackOK(actual.Details[k]) && anyUnpackOK(expected.Details[k])) :
+//@            msgContent(box(expected.Details[k])) == msgContent(box(actual.Details[k])))
+//@   loop 0: invariant expected != nil && actual != nil && (slicebase(errs) == 0 || fresh(errs)) && actualReqInfo != nil && fresh(actualReqInfo) && expectedReqInfo != nil && fresh(expectedReqInfo)
+//@           invariant len(errs) == 0 ==> atpre(errHeadOK(expected, actual, otherCodes))
+//@           invariant length <= len(expected.Details) && length <= len(actual.Details) && 0 <= i && i < length
+//@           invariant len(errs) == 0 ==> forall k int :: 0 <= k && k < i ==>
+//@        ((anyIsReqInfo(actual.Details[k]) && anyIsReqInfo(expected.Details[k])) ? (anyUnpackOK(actual.Details[k]) && anyUnpackOK(expected.Details[k])) :
+//@            msgContent(box(expected.Details[k])) == msgContent(box(actual.Details[k])))
+
+// mergeHeaders: used only for the documented leniency (headers and trailers of an error-only
+// unary / client-stream response may arrive merged); what it computes is not specified here.
+//@ func mergeHeaders
+//@   trusted
+//@   modifies nothing
+//@   ensures forall i int :: 0 <= i && i < len(result) ==> result[i] != nil
+
+// ---- the verdict ----
+//@ spec statusOK(e *conformancev1.ClientResponseResult, a *conformancev1.ClientResponseResult) bool =
+//@    !(e.HttpStatusCode != nil && a.HttpStatusCode != nil && *e.HttpStatusCode != *a.HttpStatusCode)
+//@ spec strictMeta(e *conformancev1.ClientResponseResult, a *conformancev1.ClientResponseResult) bool =
+//@    hdrsOK(e.ResponseHeaders, a.ResponseHeaders, len(e.ResponseHeaders)) && hdrsOK(e.ResponseTrailers, a.ResponseTrailers, len(e.ResponseTrailers))
+// the one documented case in which headers and trailers may be merged
+//@ spec mergeAllowed(d *conformancev1.TestCase) bool = len(d.ExpectedResponse.Payloads) == 0 && d.ExpectedResponse.Error != nil &&
+//@    (d.Request.StreamType == 1 || d.Request.StreamType == 2)
+
+// assert records the verdict under the given name: success (no failure) requires the payloads
+// to match in number, order and bytes (with their request info), the error to agree in
+// presence, code (or an allowed alternative), specified message and number of details, the
+// HTTP status to agree when both sides have one, and every expected header and trailer to be
+// present with equal canonical values - the latter with the single exception of mergeAllowed
+// cases; conversely a result that agrees on all of these (and carries no error details) is
+// recorded as a success.
+//@ func (*testResults).assert
+//@   requires wfResults(r) && definition != nil && actual != nil && definition.ExpectedResponse != nil && definition.Request != nil
+//@   modifies atomicI32, held, map[string]testOutcome, []error
+//@   ensures !held[r.mu]
+//@   ensures @recorded has(r.outcomes, testCase) && !r.outcomes[testCase].setupError
+//@   ensures @kept forall k string :: old(r.outcomes != nil && has(r.outcomes, k)) ==> has(r.outcomes, k)
+//@   ensures @pass-needs r.outcomes[testCase].actualFailure == nil ==> old(
+//@        len(actual.Payloads) == len(definition.ExpectedResponse.Payloads) && paysOK(definition.ExpectedResponse.Payloads, actual.Payloads, len(actual.Payloads)) &&
+//@        ((definition.ExpectedResponse.Error == nil) == (actual.Error == nil)) &&
+//@        (definition.ExpectedResponse.Error != nil && actual.Error != nil ==> errHeadOK(definition.ExpectedResponse.Error, actual.Error, definition.OtherAllowedErrorCodes)) &&
+//@        statusOK(definition.ExpectedResponse, actual) && (strictMeta(definition.ExpectedResponse, actual) || mergeAllowed(definition)))
+//@   ensures @agree-passes old(
+//@        len(actual.Payloads) == len(definition.ExpectedResponse.Payloads) && paysOK(definition.ExpectedResponse.Payloads, actual.Payloads, len(actual.Payloads)) &&
+//@        ((definition.ExpectedResponse.Error == nil && actual.Error == nil) ||
+//@         (definition.ExpectedResponse.Error != nil && actual.Error != nil && errHeadOK(definition.ExpectedResponse.Error, actual.Error, definition.OtherAllowedErrorCodes) && len(actual.Error.Details) == 0)) &&
+//@        statusOK(definition.ExpectedResponse, actual) && strictMeta(definition.ExpectedResponse, actual)) ==> r.outcomes[testCase].actualFailure == nil
